@@ -21,7 +21,7 @@ RULE = (
     "__members__ must return the one canonical (first-declared) member object with declared name and number; "
     "copy/deepcopy identity; pickle keeps name and value; undefined numbers via try_value == int; class and member "
     "mutation raises AttributeError and changes nothing. (b) int32 numbers (defined and undefined, negative) as field "
-    "values in singular / optional / repeated / map-value / oneof positions of the plugin-generated corpus enums "
+    "values in singular / optional / repeated / map-value / oneof positions of the plugin-generated corpus enums (default, pydantic_dataclasses and typing.310 output) "
     "(prefixed enum Color, aliased enum Plain), passed as member or as raw int: number survives bytes->parse "
     "(reference decoder as cross-check) and to_dict/to_json->from_dict in every position; defined numbers decode to "
     "the canonical member object. Non-trivial = enum with a negative or aliased number, or a field holding an "
@@ -211,10 +211,20 @@ def targets(ctx):
             return vs[0] if len(vs) == 1 else ("dict", val)
         return val
 
+    _variants = {}
+
+    def variant_corpus(variant):
+        if variant == "default":
+            return c
+        if variant not in _variants:
+            _variants[variant] = corpus(opts=(variant,))
+        return _variants[variant]
+
     @collecting
-    def pos_clauses(out, pi, n, as_member):
+    def pos_clauses(out, pi, n, as_member, variant="default"):
         msg, field, ename, wrap = POS[pi]
-        cls, E = c.bp(msg), c.bp(ename)
+        cv = variant_corpus(variant)
+        cls, E = cv.bp(msg), cv.bp(ename)
         mi = schema.msg(f"ks.{msg}")
         defined = n in schema.enums[f"ks.{ename}"].numbers
         val = guard("try_value", E.try_value, n) if as_member else n
@@ -259,6 +269,9 @@ def targets(ctx):
             if path == "json":
                 d = json.loads(guard("to_json", m.to_json))
             m3 = guard(f"from_{path}", cls().from_dict, d)
+            m3c = guard(f"from_{path}_classmethod", cls.from_dict, d)
+            if guard("bytes_json_classmethod", bytes, m3c) != guard("bytes_json_instance", bytes, m3):
+                out.append((f"json_classmethod_vs_instance_{path}", f"dict={d!r}"))
             got = unwrap(guard("getattr_json", getattr, m3, field))
             if not (isinstance(got, int) and not isinstance(got, bool) and got == n):
                 out.append((f"json_roundtrip_number_{path}", f"got={got!r} want={n} dict={d!r}"))
@@ -269,10 +282,12 @@ def targets(ctx):
         pi, n, as_member = case["pos"], case["n"], case["as_member"]
         msg, field, ename, _ = POS[pi]
         defined = n in schema.enums[f"ks.{ename}"].numbers
-        found = pos_clauses(pi, n, as_member)
+        variant = case.get("variant", "default")
+        found = pos_clauses(pi, n, as_member, variant)
         vc = ("defined" if defined else "undefined") + ("_neg" if n < 0 else "")
-        fails = [Failure(cl, f"pos|{cl}|{field}|{vc}|{'member' if as_member else 'int'}", f"case={case!r} :: {d}") for cl, d in found]
-        return Eval(fails, nontrivial=(not defined) or n < 0, labels=[f"pos:{field}", f"vc:{vc}", f"as_member:{as_member}"])
+        tag = "" if variant == "default" else f"|{variant}"
+        fails = [Failure(cl, f"pos|{cl}|{field}|{vc}|{'member' if as_member else 'int'}{tag}", f"case={case!r} :: {d}") for cl, d in found]
+        return Eval(fails, nontrivial=(not defined) or n < 0, labels=[f"pos:{field}", f"vc:{vc}", f"as_member:{as_member}", f"variant:{variant}"])
 
     @st.composite
     def pos_strat(draw):
@@ -280,7 +295,8 @@ def targets(ctx):
         ename = POS[pi][2]
         nums = schema.enums[f"ks.{ename}"].numbers
         n = draw(st.one_of(st.sampled_from(nums), st.sampled_from([-1, -2, 3, 99, 2**31 - 1, -(2**31), 2**31 - 2]), st.integers(-(2**31), 2**31 - 1)))
-        return {"pos": pi, "n": n, "as_member": draw(st.booleans())}
+        return {"pos": pi, "n": n, "as_member": draw(st.booleans()),
+                "variant": draw(st.sampled_from(["default", "default", "pydantic_dataclasses", "pydantic_dataclasses", "typing.310"]))}
 
     # corpus enum definitions (through the plugin) as fixed definition cases
     def corpus_defs():
